@@ -222,7 +222,7 @@ func runSMOnce(c *Ctx, s *Sink) {
 							}
 							evs = append(evs, tsEvent{kind: kind, node: m})
 						}
-						if sel, ok := ast.Unparen(l).(*ast.SelectorExpr); ok && sel.Sel.Name == "annotations" && rootObj(info, sel.X) == v {
+						if sel, ok := ast.Unparen(l).(*ast.SelectorExpr); ok && strings.HasSuffix(types.TypeString(info.TypeOf(sel), nil), "obiseq.Annotation") && rootObj(info, sel.X) == v {
 							evs = append(evs, tsEvent{kind: "copy", node: m})
 						}
 					}
